@@ -69,10 +69,18 @@ def analyse_generator(ctx):
     ctx.note_shape({"C18"}, "generator", ("templates", d.get("templates")))
     ctx.ob({"C18"}, "generator|templates_found", d.get("templates", 0) >= 20, "only %s quote! templates found" % d.get("templates"),
            sample={"templates": d.get("templates"), "string_sources": d.get("string_sources"), "files": d.get("files")})
-    for f in d.get("findings", []):
+    PROFILE = ("debug_assert", "debug_assert_eq", "debug_assert_ne", "debug_assertions", "overflow_checks", "to_ne_bytes", "from_ne_bytes", "target_endian", "target_pointer_width")
+    prof = [f for f in d.get("findings", []) if f["token"] in PROFILE]
+    other = [f for f in d.get("findings", []) if f["token"] not in PROFILE]
+    for f in other:
         ctx.ob({"C18"}, "generator|%s|%s|%s" % (f["kind"], f["file"], f["token"]), False,
                "generator template in %s emits `%s` (%s)" % (f["file"], f["token"], f["kind"]))
-    if not d.get("findings"):
+    for f in prof:
+        ctx.ob({"C16"}, "generator|%s|%s|%s" % (f["kind"], f["file"], f["token"]), False,
+               "generator template in %s emits `%s`: what the generated code does then depends on the build profile / target of the user's crate" % (f["file"], f["token"]))
+    if not other:
         ctx.ob({"C18"}, "generator|no_unsafe_no_std_tokens", True, sample={"scanned_tokens": d.get("tokens")})
+    if not prof:
+        ctx.ob({"C16"}, "generator|no_profile_or_target_dependent_tokens", True, sample={"scanned_tokens": d.get("tokens"), "templates": d.get("templates")})
     ok = d.get("selftest") == "ok"
     ctx.ob({"C18"}, "generator|scanner_selftest", ok, "the scanner's own positive example (an `unsafe` block and a ::std path in a quote! template) was not flagged")
